@@ -206,7 +206,11 @@ def gen_hierarchy(rng):
             if t not in members:
                 members.append(t)
         if 'bool' in members and rng.random() < 0.4:
-            members.append('buf')
+            if rng.random() < 0.35:
+                # bool_union_fix alone: the single member for a boolean
+                members[members.index('bool')] = 'buf'
+            else:
+                members.append('buf')
         dt = ['union'] + members
         if rng.random() < 0.3:
             dt = ['list', dt]
